@@ -27,12 +27,24 @@ DEFAULT = dict(cap="pos", mode="1", bufDelay="zero", iat="pos", blk="1", srcPol=
 DOMAIN = dict(cap=CAPS, mode=["0", "1"], bufDelay=NUMS, iat=NUMS, blk=["0", "1"], srcPol=POLS, pd=NUMS, setup=NUMS,
               inPol=POLS, outPol=POLS, srcConn=["0", "1"], machIn=["0", "1"], machOut=["0", "1"], sinkConn=["0", "1"])
 
-def num(kind, pos=1.0):
-    return {"neg": -1.0, "zero": 0, "pos": pos, "none": None, "notnum": "soon"}[kind]
+def num(kind, pos=1.0, rep=0):
+    # several concrete representatives per kind (`rep` comes from the configuration's own PRNG draw)
+    return {"neg": [-1.0, -0.25, -3][rep % 3], "zero": [0, 0.0][rep % 2], "pos": [pos, pos * 2, pos / 2][rep % 3], "none": None,
+            "notnum": ["soon", [1]][rep % 2]}[kind]
+
+BAD_MODES = ["RING", "", "FO", "IFO", "LIF", "FIFOLIFO", "fifo", "lifo", "FILO", "RANDOM", "FIFO ", None, 7]
 
 def pol(kind, n):
     return {"fa": "FIRST_AVAILABLE", "rr": "ROUND_ROBIN", "rnd": "RANDOM", "constok": 0, "constbad": n + 3,
             "badstring": "NEAREST", "none": None, "callable": (lambda: 0)}[kind]
+
+def concrete(cfg):
+    """the concrete parameter values run_real uses for this configuration (for replays and messages)"""
+    rep = cfg.get("_rep", 0)
+    return dict(capacity={"neg": [-2, -1][rep % 2], "zero": 0, "pos": [2, 1, 5][rep % 3], "notint": [1.5, "3"][rep % 2]}[cfg["cap"]],
+                mode=["FIFO", "LIFO"][rep % 2] if cfg["mode"] == "1" else BAD_MODES[rep % len(BAD_MODES)],
+                buffer_delay=num(cfg["bufDelay"], 0.5, rep), inter_arrival_time=num(cfg["iat"], 1.0, rep // 2), source_blocking=cfg["blk"] == "1",
+                node_setup_time=num(cfg["setup"], 0.5, rep // 3), processing_delay=num(cfg["pd"], 1.0, rep // 5))
 
 def line(cfg):
     return "validate " + " ".join(cfg[f] for f in FIELDS)
@@ -46,11 +58,13 @@ def run_real(cfg):
     from factorysimpy.edges.buffer import Buffer
     env = _simpy.Environment()
     try:
-        cap = {"neg": -2, "zero": 0, "pos": 2, "notint": 1.5}[cfg["cap"]]
-        b1 = Buffer(env, "B1", capacity=cap, delay=num(cfg["bufDelay"], 0.5), mode="FIFO" if cfg["mode"] == "1" else "RING")
+        rep = cfg.get("_rep", 0)
+        cap = {"neg": [-2, -1][rep % 2], "zero": 0, "pos": [2, 1, 5][rep % 3], "notint": [1.5, "3"][rep % 2]}[cfg["cap"]]
+        b1 = Buffer(env, "B1", capacity=cap, delay=num(cfg["bufDelay"], 0.5, rep),
+                    mode=["FIFO", "LIFO"][rep % 2] if cfg["mode"] == "1" else BAD_MODES[rep % len(BAD_MODES)])
         b2 = Buffer(env, "B2", capacity=2, delay=0)
-        src = Source(env, "S", inter_arrival_time=num(cfg["iat"]), blocking=cfg["blk"] == "1", out_edge_selection=pol(cfg["srcPol"], 1))
-        m = Machine(env, "M", node_setup_time=num(cfg["setup"], 0.5), processing_delay=num(cfg["pd"]), in_edge_selection=pol(cfg["inPol"], 1),
+        src = Source(env, "S", inter_arrival_time=num(cfg["iat"], 1.0, rep // 2), blocking=cfg["blk"] == "1", out_edge_selection=pol(cfg["srcPol"], 1))
+        m = Machine(env, "M", node_setup_time=num(cfg["setup"], 0.5, rep // 3), processing_delay=num(cfg["pd"], 1.0, rep // 5), in_edge_selection=pol(cfg["inPol"], 1),
                     out_edge_selection=pol(cfg["outPol"], 1))
         k = Sink(env, "K")
     except Exception as ex:
@@ -84,10 +98,13 @@ def gen_configs(rng, n):
     for f in FIELDS:                       # one factor at a time
         for v in DOMAIN[f]:
             c = dict(DEFAULT); c[f] = v; out.append(c)
+    for i in range(len(BAD_MODES)):        # every unknown-mode representative once
+        c = dict(DEFAULT); c["mode"] = "0"; c["_rep"] = i; out.append(c)
     while len(out) < n:                    # random pairs / triples of deviations
         c = dict(DEFAULT)
-        for f in rng.sample(FIELDS, rng.choice([2, 2, 3])):
+        for f in rng.sample(FIELDS, rng.choice([1, 2, 2, 3])):
             c[f] = rng.choice(DOMAIN[f])
+        c["_rep"] = rng.randrange(390)     # which concrete representative of each kind
         out.append(c)
     return out
 
